@@ -1063,7 +1063,23 @@ def wf_problems(net, snap, joint):
 # one schedule / the serial references
 # ---------------------------------------------------------------------------
 
+_GC_RUNS = [0]
+
+
+def _gc_safe_point():
+    """Cyclic garbage (the abandoned generators of a hung schedule, whose `finally` blocks release locks of their
+    OLD network) is collected only here, between two schedules -- never in the middle of one, where the finalisers
+    would run inside whatever operation happens to be executing and depend on the allocator's timing."""
+    import gc
+    if gc.isenabled():
+        gc.disable()
+    _GC_RUNS[0] += 1
+    if _GC_RUNS[0] % 40 == 0:
+        gc.collect()
+
+
 def run_schedule(case, spec):
+    _gc_safe_point()
     ex = Exec(case)
     ex.prefix()
     t_pre = len(ex.net.trace)
